@@ -8,7 +8,7 @@ SETUP = f"cd /verif/tools && {ENV} go build -o /verif/bin/verif ./cmd/verif"
 # id -> (level, engine, technique, text, note, design_ref)
 CLAIMED = {
  "C05": ("proof", "E1-effects",
-   "interprocedural effect/escape analysis over go/ssa + VTA call graph (global-derived address propagation, callee purity list, sync.Once dominance)",
+   "interprocedural effect/escape analysis over go/ssa + VTA call graph (global-derived address propagation — package variables and whatever a closure held in a package variable captured —, callee purity list, sync.Once dominance)",
    "Every API-reachable store-like instruction, external call site and package variable is an obligation; all are discharged: no reachable write to package state, no impure callee, no goroutine/channel/map-range. That is a proof of race-freedom and history-independence relative to the trusted base.",
    "Trusted: go/ssa, VTA call graph (sound without reflect/unsafe, which R3 forbids), the pure-package list, field-based heap abstraction.",
    "DESIGN.md §2.1, §3 C05"),
@@ -53,7 +53,7 @@ man = {
  "engines": [
   {"name": "E1-effects", "path": "tools/internal/effects", "serves_properties": ["C05", "C20"], "kind_free_text": "effect/escape dataflow analysis on SSA + call graph"},
   {"name": "E2-tables", "path": "tools/internal/tables", "serves_properties": ["C20", "C01", "C03", "C10", "C11", "C14", "C19"], "kind_free_text": "constant extraction of table literals; closed-initialiser SSA evaluation (dispatch/accept tables, single-byte predicates)"},
-  {"name": "E3-absint", "path": "tools/internal/absint", "serves_properties": ["C01", "C02", "C09", "C16", "C17", "C18", "C19"], "kind_free_text": "relational abstract interpretation of go/ssa (linear inequalities, in-checker simplex), bounds/progress/offset-base obligations"},
+  {"name": "E3-absint", "path": "tools/internal/absint", "serves_properties": ["C01", "C02", "C03", "C09", "C13", "C16", "C17", "C18", "C19"], "kind_free_text": "relational abstract interpretation of go/ssa (linear inequalities, in-checker simplex), bounds/progress/offset-base obligations"},
   {"name": "E4-symmetry", "path": "tools/internal/symmetry", "serves_properties": ["C10", "C11", "C19"], "kind_free_text": "observation-symmetry (non-interference under ASCII case swap) analysis"},
   {"name": "E5-paths", "path": "tools/internal/checks", "serves_properties": ["C03", "C04", "C08", "C12", "C13", "C14", "C15"], "kind_free_text": "CFG path rules, SCCP-by-call, HTML state-graph rules"},
  ],
